@@ -1017,4 +1017,422 @@ def normG (nc : Color → Color) (g : Glyph) : Glyph :=
 
 end
 
+/-! ## object libs: `load_object_libs` undoes `dump_object_libs` -/
+
+def keys (d : Dict) : List Str := d.map (·.1)
+
+theorem dictGet_none_iff (k : Str) (d : Dict) : dictGet k d = none ↔ k ∉ keys d := by
+  induction d with
+  | nil => simp [dictGet, keys]
+  | cons e r ih =>
+    obtain ⟨k', v⟩ := e
+    by_cases h : k' = k
+    · simp [dictGet, keys, h]
+    · simp only [dictGet, h, if_false, keys, List.map_cons, List.mem_cons, not_or]
+      constructor
+      · intro hn; exact ⟨fun e => h e.symm, (by simpa [keys] using ih.1 hn)⟩
+      · intro hn; exact ih.2 (by simpa [keys] using hn.2)
+
+theorem dictErase_of_not_mem {k : Str} {d : Dict} (h : k ∉ keys d) : dictErase k d = d := by
+  induction d with
+  | nil => rfl
+  | cons e r ih =>
+    simp only [keys, List.map_cons, List.mem_cons, not_or] at h
+    have hr : dictErase k r = r := ih (by simpa [keys] using h.2)
+    have : e.1 ≠ k := fun e' => h.1 e'.symm
+    simp only [dictErase, List.filter_cons, this, ne_eq, not_false_eq_true, decide_true, if_true] at hr ⊢
+    rw [hr]
+
+theorem dictInsert_fresh {k : Str} {v : PV} {d : Dict} (h : k ∉ keys d) : dictInsert k v d = d ++ [(k, v)] := by
+  simp [dictInsert, (dictGet_none_iff k d).2 h]
+
+/-- the entry an object contributes to `public.objectLibs` -/
+def ent (id : Option Str) (lib : Option Dict) : Dict :=
+  match lib, id with
+  | some l, some i => [(i, .dict l)]
+  | _, _ => []
+
+theorem keys_ent {id : Option Str} {lib : Option Dict} {k : Str} (h : k ∈ keys (ent id lib)) : id = some k := by
+  cases lib <;> cases id <;> simp [ent, keys] at h
+  rw [h]
+
+theorem dumpOne_eq {id : Option Str} {lib : Option Dict} {acc : Dict} (h : ∀ i, id = some i → i ∉ keys acc) :
+    dumpOne id lib acc = acc ++ ent id lib := by
+  cases lib <;> cases id <;> simp [dumpOne, ent]
+  exact dictInsert_fresh (h _ rfl)
+
+theorem keys_append (a b : Dict) : keys (a ++ b) = keys a ++ keys b := by simp [keys]
+
+/-- generic fold: a step that appends the entries of an element, as long as the element's identifiers are new -/
+theorem foldl_dump {α : Type} (ids : α → List Str) (ents : α → Dict) (stepf : Dict → α → Dict)
+    (hstep : ∀ acc a, (∀ i, i ∈ ids a → i ∉ keys acc) → (ids a).Nodup → stepf acc a = acc ++ ents a)
+    (hkeys : ∀ a k, k ∈ keys (ents a) → k ∈ ids a) :
+    ∀ (xs : List α) (acc : Dict), (∀ i, i ∈ xs.flatMap ids → i ∉ keys acc) → (xs.flatMap ids).Nodup →
+      xs.foldl stepf acc = acc ++ xs.flatMap ents := by
+  intro xs
+  induction xs with
+  | nil => intro acc _ _; simp
+  | cons a r ih =>
+    intro acc hfr hnd
+    rw [List.flatMap_cons] at hfr hnd
+    obtain ⟨n1, n2, n3⟩ := List.nodup_append.1 hnd
+    rw [List.foldl_cons, hstep acc a (fun i hi => hfr i (List.mem_append_left _ hi)) n1]
+    rw [ih (acc ++ ents a) ?_ n2]
+    · simp [List.flatMap_cons, List.append_assoc]
+    · intro i hi
+      rw [keys_append, List.mem_append, not_or]
+      exact ⟨hfr i (List.mem_append_right _ hi), fun hk => n3 i (hkeys a i hk) i hi rfl⟩
+
+theorem filterMap_eq_flatMap {α : Type} (f : α → Option Str) (l : List α) :
+    l.filterMap f = l.flatMap (fun a => (f a).toList) := by
+  induction l with
+  | nil => rfl
+  | cons a r ih => cases h : f a <;> simp [List.filterMap_cons, List.flatMap_cons, h, ih]
+
+/-- entries of a list of simple objects -/
+def entsOf {α : Type} (id : α → Option Str) (lib : α → Option Dict) (xs : List α) : Dict :=
+  xs.flatMap (fun a => ent (id a) (lib a))
+
+theorem foldl_dumpOne {α : Type} (id : α → Option Str) (lib : α → Option Dict) (xs : List α) (acc : Dict)
+    (hfr : ∀ i, i ∈ xs.filterMap id → i ∉ keys acc) (hnd : (xs.filterMap id).Nodup) :
+    xs.foldl (fun acc a => dumpOne (id a) (lib a) acc) acc = acc ++ entsOf id lib xs := by
+  rw [filterMap_eq_flatMap] at hfr hnd
+  exact foldl_dump (fun a => (id a).toList) (fun a => ent (id a) (lib a)) _
+    (fun acc a h _ => dumpOne_eq (fun i hi => h i (by simp [hi])))
+    (fun a k hk => by simp [keys_ent hk]) xs acc hfr hnd
+
+theorem keys_entsOf {α : Type} (id : α → Option Str) (lib : α → Option Dict) (xs : List α) {k : Str}
+    (h : k ∈ keys (entsOf id lib xs)) : k ∈ xs.filterMap id := by
+  simp only [entsOf, keys, List.map_flatMap, List.mem_flatMap] at h
+  obtain ⟨a, ha, hk⟩ := h
+  exact List.mem_filterMap.2 ⟨a, ha, keys_ent (by simpa [keys] using hk)⟩
+
+/-- entries of a contour: its own, then its points' -/
+def entsC (c : Contour) : Dict := ent c.ident c.lib ++ entsOf (·.ident) (·.lib) c.points
+
+theorem keys_entsC {c : Contour} {k : Str} (h : k ∈ keys (entsC c)) : k ∈ cIds c := by
+  rw [entsC, keys_append, List.mem_append] at h
+  rcases h with h | h
+  · simp [cIds, keys_ent h]
+  · exact List.mem_append_right _ (keys_entsOf _ _ _ h)
+
+theorem dump_contour (acc : Dict) (c : Contour) (hfr : ∀ i, i ∈ cIds c → i ∉ keys acc) (hnd : (cIds c).Nodup) :
+    c.points.foldl (fun acc p => dumpOne p.ident p.lib acc) (dumpOne c.ident c.lib acc) = acc ++ entsC c := by
+  unfold cIds at hfr hnd
+  obtain ⟨n1, n2, n3⟩ := List.nodup_append.1 hnd
+  rw [dumpOne_eq (fun i hi => hfr i (by simp [hi]))]
+  rw [foldl_dumpOne (·.ident) (·.lib) c.points _ ?_ n2]
+  · simp [entsC, List.append_assoc]
+  · intro i hi
+    rw [keys_append, List.mem_append, not_or]
+    refine ⟨hfr i (List.mem_append_right _ hi), fun hk => ?_⟩
+    have := keys_ent hk
+    exact n3 i (by simp [this]) i hi rfl
+
+/-- **`dump_object_libs` is the concatenation of the per-object entries** (identifiers unique) -/
+theorem dumpObjectLibs_eq {g : Glyph} (hnd : (Spec.glyphIdents g).Nodup) :
+    dumpObjectLibs g = entsOf (·.ident) (·.lib) g.anchors ++ (entsOf (·.ident) (·.lib) g.guidelines ++
+      (g.contours.flatMap entsC ++ entsOf (·.ident) (·.lib) g.components)) := by
+  have hnd' : (g.anchors.filterMap (·.ident) ++ g.guidelines.filterMap (·.ident) ++ g.contours.flatMap cIds ++
+      g.components.filterMap (·.ident)).Nodup := by simpa [Spec.glyphIdents, cIds_def] using hnd
+  obtain ⟨hAGC, hK, d1⟩ := List.nodup_append.1 hnd'
+  obtain ⟨hAG, hC, d2⟩ := List.nodup_append.1 hAGC
+  obtain ⟨hA, hG, d3⟩ := List.nodup_append.1 hAG
+  unfold dumpObjectLibs
+  simp only
+  rw [foldl_dumpOne (·.ident) (·.lib) g.anchors [] (by simp [keys]) hA]
+  rw [foldl_dumpOne (·.ident) (·.lib) g.guidelines _ ?_ hG]
+  rw [foldl_dump cIds entsC _ (fun acc c h1 h2 => dump_contour acc c h1 h2) (fun c k hk => keys_entsC hk) g.contours _ ?_ hC]
+  rw [foldl_dumpOne (·.ident) (·.lib) g.components _ ?_ hK]
+  · simp [List.append_assoc]
+  · intro i hi hk
+    simp only [keys_append, List.nil_append, List.mem_append] at hk
+    rcases hk with (hk | hk) | hk
+    · exact d1 i (List.mem_append_left _ (List.mem_append_left _ (keys_entsOf _ _ _ hk))) i hi rfl
+    · exact d1 i (List.mem_append_left _ (List.mem_append_right _ (keys_entsOf _ _ _ hk))) i hi rfl
+    · obtain ⟨c, hc, hkc⟩ := List.mem_flatMap.1 (by simpa [keys, List.map_flatMap] using hk : i ∈ g.contours.flatMap (fun c => keys (entsC c)))
+      exact d1 i (List.mem_append_right _ (List.mem_flatMap.2 ⟨c, hc, keys_entsC hkc⟩)) i hi rfl
+  · intro i hi hk
+    simp only [keys_append, List.nil_append, List.mem_append] at hk
+    rcases hk with hk | hk
+    · exact d2 i (List.mem_append_left _ (keys_entsOf _ _ _ hk)) i hi rfl
+    · exact d2 i (List.mem_append_right _ (keys_entsOf _ _ _ hk)) i hi rfl
+  · intro i hi hk
+    simp only [keys_append, List.nil_append] at hk
+    exact d3 i (keys_entsOf _ _ _ hk) i hi rfl
+
+/-! ### load side -/
+
+theorem dictGet_cons_self (k : Str) (v : PV) (d : Dict) : dictGet k ((k, v) :: d) = some v := by simp [dictGet]
+
+theorem dictErase_cons_self {k : Str} {v : PV} {d : Dict} (h : k ∉ keys d) : dictErase k ((k, v) :: d) = d := by
+  have := dictErase_of_not_mem h
+  unfold dictErase at this ⊢
+  rw [List.filter_cons]
+  simp only [ne_eq, not_true_eq_false, decide_false, Bool.false_eq_true, if_false]
+  exact this
+
+/-- moving one object's lib: its entry is at the head of the remaining entries -/
+theorem transferLib_ent {id : Option Str} {lib : Option Dict} {tail : Dict}
+    (hl : lib.isSome = true → id.isSome = true) (hfr : ∀ i, id = some i → i ∉ keys tail) :
+    transferLib id (ent id lib ++ tail) = some (lib, tail) := by
+  cases id with
+  | none =>
+    cases lib with
+    | none => simp [transferLib, ent]
+    | some l => simp at hl
+  | some i =>
+    have hi := hfr i rfl
+    cases lib with
+    | none => simp [transferLib, ent, (dictGet_none_iff i tail).2 hi]
+    | some l => simp [transferLib, ent, dictGet_cons_self, dictErase_cons_self hi]
+
+/-- generic list loader (the four simple `loadX` functions are instances) -/
+def loadGen {α : Type} (id : α → Option Str) (setLib : α → Option Dict → α) : List α → Dict → Option (List α × Dict)
+  | [], ol => some ([], ol)
+  | a :: r, ol =>
+    match transferLib (id a) ol with
+    | none => none
+    | some (l, ol') =>
+      match loadGen id setLib r ol' with
+      | none => none
+      | some (r', ol'') => some (setLib a l :: r', ol'')
+
+theorem loadAnchors_gen (as : List Anchor) (ol : Dict) :
+    loadAnchors as ol = loadGen (·.ident) (fun a l => { a with lib := l }) as ol := by
+  induction as generalizing ol with
+  | nil => rfl
+  | cons a r ih =>
+    simp only [loadAnchors, loadGen, ih]
+    rcases transferLib a.ident ol with _ | ⟨l, ol'⟩
+    · rfl
+    · dsimp only
+      cases loadGen (fun x : Anchor => x.ident) (fun a l => { a with lib := l }) r ol' <;> rfl
+theorem loadGuidelines_gen (as : List Guideline) (ol : Dict) :
+    loadGuidelines as ol = loadGen (·.ident) (fun a l => { a with lib := l }) as ol := by
+  induction as generalizing ol with
+  | nil => rfl
+  | cons a r ih =>
+    simp only [loadGuidelines, loadGen, ih]
+    rcases transferLib a.ident ol with _ | ⟨l, ol'⟩
+    · rfl
+    · dsimp only
+      cases loadGen (fun x : Guideline => x.ident) (fun a l => { a with lib := l }) r ol' <;> rfl
+theorem loadPoints_gen (as : List Point) (ol : Dict) :
+    loadPoints as ol = loadGen (·.ident) (fun a l => { a with lib := l }) as ol := by
+  induction as generalizing ol with
+  | nil => rfl
+  | cons a r ih =>
+    simp only [loadPoints, loadGen, ih]
+    rcases transferLib a.ident ol with _ | ⟨l, ol'⟩
+    · rfl
+    · dsimp only
+      cases loadGen (fun x : Point => x.ident) (fun a l => { a with lib := l }) r ol' <;> rfl
+theorem loadComponents_gen (as : List Component) (ol : Dict) :
+    loadComponents as ol = loadGen (·.ident) (fun a l => { a with lib := l }) as ol := by
+  induction as generalizing ol with
+  | nil => rfl
+  | cons a r ih =>
+    simp only [loadComponents, loadGen, ih]
+    rcases transferLib a.ident ol with _ | ⟨l, ol'⟩
+    · rfl
+    · dsimp only
+      cases loadGen (fun x : Component => x.ident) (fun a l => { a with lib := l }) r ol' <;> rfl
+
+/-- loading the stripped copies `p a` of `xs` from their own entries gives every lib back -/
+theorem loadGen_entries {α : Type} (id : α → Option Str) (lib : α → Option Dict) (setLib : α → Option Dict → α)
+    (p : α → α) (hp : ∀ a, id (p a) = id a) :
+    ∀ (xs : List α) (rest : Dict), (xs.filterMap id).Nodup → (∀ i, i ∈ xs.filterMap id → i ∉ keys rest) →
+      (∀ a, a ∈ xs → (lib a).isSome = true → (id a).isSome = true) →
+      loadGen id setLib (xs.map p) (entsOf id lib xs ++ rest) = some (xs.map (fun a => setLib (p a) (lib a)), rest) := by
+  intro xs
+  induction xs with
+  | nil => intro rest _ _ _; simp [loadGen, entsOf]
+  | cons a r ih =>
+    intro rest hnd hfr hl
+    rw [filterMap_ident_cons] at hnd hfr
+    obtain ⟨n1, n2, n3⟩ := List.nodup_append.1 hnd
+    have htail : ∀ i, id a = some i → i ∉ keys (entsOf id lib r ++ rest) := by
+      intro i hi
+      rw [keys_append, List.mem_append, not_or]
+      exact ⟨fun hk => n3 i (by simp [hi]) i (keys_entsOf _ _ _ hk) rfl, hfr i (by simp [hi])⟩
+    have ht := transferLib_ent (lib := lib a) (hl a List.mem_cons_self) htail
+    have ih' := ih rest n2 (fun i hi => hfr i (List.mem_append_right _ hi)) (fun b hb => hl b (List.mem_cons_of_mem _ hb))
+    simp only [List.map_cons, loadGen, hp, entsOf, List.flatMap_cons, List.append_assoc] at ht ih' ⊢
+    simp only [ht, ih']
+
+theorem keys_flatMap_entsC {cs : List Contour} {k : Str} (h : k ∈ keys (cs.flatMap entsC)) : k ∈ cs.flatMap cIds := by
+  simp only [keys, List.map_flatMap, List.mem_flatMap] at h
+  obtain ⟨c, hc, hk⟩ := h
+  exact List.mem_flatMap.2 ⟨c, hc, keys_entsC (by simpa [keys] using hk)⟩
+
+def nPoint (p : Point) : Point := { pPoint p with lib := p.lib }
+def nContour (c : Contour) : Contour := { points := c.points.map nPoint, ident := c.ident, lib := c.lib }
+
+def ContourIdentified (c : Contour) : Prop :=
+  (c.lib.isSome = true → c.ident.isSome = true) ∧ ∀ p, p ∈ c.points → p.lib.isSome = true → p.ident.isSome = true
+
+theorem loadContours_entries : ∀ (cs : List Contour) (rest : Dict), (cs.flatMap cIds).Nodup →
+    (∀ i, i ∈ cs.flatMap cIds → i ∉ keys rest) → (∀ c, c ∈ cs → ContourIdentified c) →
+    loadContours (cs.map pContour) (cs.flatMap entsC ++ rest) = some (cs.map nContour, rest) := by
+  intro cs
+  induction cs with
+  | nil => intro rest _ _ _; simp [loadContours]
+  | cons c r ih =>
+    intro rest hnd hfr hl
+    rw [List.flatMap_cons] at hnd hfr
+    obtain ⟨n1, n2, n3⟩ := List.nodup_append.1 hnd
+    unfold cIds at n1
+    obtain ⟨m1, m2, m3⟩ := List.nodup_append.1 n1
+    have hrest : ∀ i, i ∈ cIds c → i ∉ keys (r.flatMap entsC ++ rest) := by
+      intro i hi
+      rw [keys_append, List.mem_append, not_or]
+      exact ⟨fun hk => n3 i hi i (keys_flatMap_entsC hk) rfl, hfr i (List.mem_append_left _ hi)⟩
+    have ht := transferLib_ent (id := c.ident) (lib := c.lib)
+      (tail := entsOf (·.ident) (·.lib) c.points ++ (r.flatMap entsC ++ rest)) (hl c List.mem_cons_self).1 (by
+        intro i hi
+        rw [keys_append, List.mem_append, not_or]
+        exact ⟨fun hk => m3 i (by simp [hi]) i (keys_entsOf _ _ _ hk) rfl, hrest i (by simp [cIds, hi])⟩)
+    have hp := loadGen_entries (·.ident) (·.lib) (fun (a : Point) l => { a with lib := l }) pPoint (fun _ => rfl)
+      c.points (r.flatMap entsC ++ rest) m2 (fun i hi => hrest i (List.mem_append_right _ hi)) (hl c List.mem_cons_self).2
+    have ih' := ih rest n2 (fun i hi => hfr i (List.mem_append_right _ hi)) (fun b hb => hl b (List.mem_cons_of_mem _ hb))
+    simp only [List.map_cons, List.flatMap_cons, entsC, List.append_assoc, loadContours, pContour, loadPoints_gen] at ht hp ih' ⊢
+    simp only [ht, hp, ih']
+    simp [nContour, nPoint, pContour]
+
+/-! ### the whole glyph -/
+
+def nAnchor (nc : Color → Color) (a : Anchor) : Anchor := { pAnchor nc a with lib := a.lib }
+def nGuideline (nc : Color → Color) (g : Guideline) : Guideline := { pGuideline nc g with lib := g.lib }
+def nComponent (k : Component) : Component := { pComponent k with lib := k.lib }
+
+/-- a lib only sits on an object that has an identifier (what the public API guarantees: `replace_lib`) -/
+structure LibsIdentified (g : Glyph) : Prop where
+  anchors : ∀ a, a ∈ g.anchors → a.lib.isSome = true → a.ident.isSome = true
+  guidelines : ∀ a, a ∈ g.guidelines → a.lib.isSome = true → a.ident.isSome = true
+  contours : ∀ c, c ∈ g.contours → ContourIdentified c
+  components : ∀ a, a ∈ g.components → a.lib.isSome = true → a.ident.isSome = true
+
+theorem ent_nil {id : Option Str} {lib : Option Dict} (hl : lib.isSome = true → id.isSome = true)
+    (h : ent id lib = []) : lib = none := by
+  cases lib with
+  | none => rfl
+  | some l =>
+    cases id with
+    | none => simp at hl
+    | some i => simp [ent] at h
+
+theorem entsOf_nil {α : Type} {id : α → Option Str} {lib : α → Option Dict} {xs : List α}
+    (hl : ∀ a, a ∈ xs → (lib a).isSome = true → (id a).isSome = true) (h : entsOf id lib xs = []) :
+    ∀ a, a ∈ xs → lib a = none := by
+  intro a ha
+  have := (List.flatMap_eq_nil_iff.1 h) a ha
+  exact ent_nil (hl a ha) this
+
+theorem dictGet_append_last {k : Str} {v : PV} {d : Dict} (h : k ∉ keys d) : dictGet k (d ++ [(k, v)]) = some v := by
+  induction d with
+  | nil => simp [dictGet]
+  | cons e r ih =>
+    simp only [keys, List.map_cons, List.mem_cons, not_or] at h
+    have : e.1 ≠ k := fun e' => h.1 e'.symm
+    simp only [List.cons_append, dictGet, this, if_false]
+    exact ih (by simpa [keys] using h.2)
+
+theorem dictErase_append_last {k : Str} {v : PV} {d : Dict} (h : k ∉ keys d) : dictErase k (d ++ [(k, v)]) = d := by
+  have := dictErase_of_not_mem h
+  unfold dictErase at this ⊢
+  rw [List.filter_append, this]
+  simp
+
+/-- **encode_then_parse_restores_object_libs**: when the parser has rebuilt the objects without libs (`pAnchor`, …) and
+    the lib is what the writer wrote (`writtenLib g` = the glyph lib plus `public.objectLibs`), `load_object_libs` puts
+    every lib back on its object and leaves exactly the glyph lib. -/
+theorem encode_then_parse_restores_object_libs {nc : Color → Color} {g : Glyph} (hnd : (Spec.glyphIdents g).Nodup)
+    (hl : LibsIdentified g) (hkey : dictGet objectLibsKey g.lib = none) (G : Glyph)
+    (hA : G.anchors = g.anchors.map (pAnchor nc)) (hGu : G.guidelines = g.guidelines.map (pGuideline nc))
+    (hC : G.contours = g.contours.map pContour) (hK : G.components = g.components.map pComponent)
+    (hL : G.lib = writtenLib g) :
+    loadObjectLibs G = .ok { G with
+      lib := g.lib
+      anchors := g.anchors.map (nAnchor nc)
+      guidelines := g.guidelines.map (nGuideline nc)
+      contours := g.contours.map nContour
+      components := g.components.map nComponent } := by
+  have hd := dumpObjectLibs_eq hnd
+  have hnd' : (g.anchors.filterMap (·.ident) ++ g.guidelines.filterMap (·.ident) ++ g.contours.flatMap cIds ++
+      g.components.filterMap (·.ident)).Nodup := by simpa [Spec.glyphIdents, cIds_def] using hnd
+  obtain ⟨hAGC, hKn, d1⟩ := List.nodup_append.1 hnd'
+  obtain ⟨hAG, hCn, d2⟩ := List.nodup_append.1 hAGC
+  obtain ⟨hAn, hGn, d3⟩ := List.nodup_append.1 hAG
+  have hk : objectLibsKey ∉ keys g.lib := (dictGet_none_iff _ _).1 hkey
+  by_cases he : (dumpObjectLibs g).isEmpty = true
+  · -- no object carries a lib
+    have hnil : dumpObjectLibs g = [] := by simpa using he
+    rw [hd] at hnil
+    simp only [List.append_eq_nil_iff] at hnil
+    obtain ⟨eA, eG, eC, eK⟩ := hnil
+    have lA := entsOf_nil hl.anchors eA
+    have lG := entsOf_nil hl.guidelines eG
+    have lK := entsOf_nil hl.components eK
+    have lC : ∀ c, c ∈ g.contours → c.lib = none ∧ ∀ p, p ∈ c.points → p.lib = none := by
+      intro c hc
+      have := (List.flatMap_eq_nil_iff.1 eC) c hc
+      simp only [entsC, List.append_eq_nil_iff] at this
+      exact ⟨ent_nil (hl.contours c hc).1 this.1, entsOf_nil (hl.contours c hc).2 this.2⟩
+    have hw : writtenLib g = g.lib := by simp [writtenLib, he]
+    have e1 : g.anchors.map (nAnchor nc) = g.anchors.map (pAnchor nc) :=
+      List.map_congr_left (fun a ha => by simp [nAnchor, pAnchor, lA a ha])
+    have e2 : g.guidelines.map (nGuideline nc) = g.guidelines.map (pGuideline nc) :=
+      List.map_congr_left (fun a ha => by simp [nGuideline, pGuideline, lG a ha])
+    have e3 : g.components.map nComponent = g.components.map pComponent :=
+      List.map_congr_left (fun a ha => by simp [nComponent, pComponent, lK a ha])
+    have e4 : g.contours.map nContour = g.contours.map pContour :=
+      List.map_congr_left (fun c hc => by
+        have hp : c.points.map nPoint = c.points.map pPoint :=
+          List.map_congr_left (fun p hp => by simp [nPoint, pPoint, (lC c hc).2 p hp])
+        simp [nContour, pContour, (lC c hc).1, hp])
+    have hg : dictGet objectLibsKey G.lib = none := by rw [hL, hw]; exact hkey
+    simp only [loadObjectLibs, hg, e1, e2, e3, e4, ← hA, ← hGu, ← hC, ← hK]
+    congr 1
+    cases G
+    simp_all
+  · -- the object libs travel under `public.objectLibs`
+    have hw : writtenLib g = g.lib ++ [(objectLibsKey, .dict (dumpObjectLibs g))] := by
+      simp only [writtenLib, he]
+      exact dictInsert_fresh hk
+    have hget : dictGet objectLibsKey G.lib = some (.dict (dumpObjectLibs g)) := by
+      rw [hL, hw]; exact dictGet_append_last hk
+    have hers : dictErase objectLibsKey G.lib = g.lib := by
+      rw [hL, hw]; exact dictErase_append_last hk
+    have kA : ∀ i, i ∈ g.anchors.filterMap (·.ident) →
+        i ∉ keys (entsOf (·.ident) (·.lib) g.guidelines ++ (g.contours.flatMap entsC ++ entsOf (·.ident) (·.lib) g.components)) := by
+      intro i hi hk'
+      simp only [keys_append, List.mem_append] at hk'
+      rcases hk' with hk' | hk' | hk'
+      · exact d3 i hi i (keys_entsOf _ _ _ hk') rfl
+      · exact d2 i (List.mem_append_left _ hi) i (keys_flatMap_entsC hk') rfl
+      · exact d1 i (List.mem_append_left _ (List.mem_append_left _ hi)) i (keys_entsOf _ _ _ hk') rfl
+    have kG : ∀ i, i ∈ g.guidelines.filterMap (·.ident) →
+        i ∉ keys (g.contours.flatMap entsC ++ entsOf (·.ident) (·.lib) g.components) := by
+      intro i hi hk'
+      simp only [keys_append, List.mem_append] at hk'
+      rcases hk' with hk' | hk'
+      · exact d2 i (List.mem_append_right _ hi) i (keys_flatMap_entsC hk') rfl
+      · exact d1 i (List.mem_append_left _ (List.mem_append_right _ hi)) i (keys_entsOf _ _ _ hk') rfl
+    have kC : ∀ i, i ∈ g.contours.flatMap cIds → i ∉ keys (entsOf (·.ident) (·.lib) g.components ++ []) := by
+      intro i hi hk'
+      simp only [List.append_nil] at hk'
+      exact d1 i (List.mem_append_right _ hi) i (keys_entsOf _ _ _ hk') rfl
+    have l1 := loadGen_entries (·.ident) (·.lib) (fun (a : Anchor) l => { a with lib := l }) (pAnchor nc) (fun _ => rfl)
+      g.anchors _ hAn kA hl.anchors
+    have l2 := loadGen_entries (·.ident) (·.lib) (fun (a : Guideline) l => { a with lib := l }) (pGuideline nc) (fun _ => rfl)
+      g.guidelines _ hGn kG hl.guidelines
+    have l3 := loadContours_entries g.contours _ hCn kC hl.contours
+    have l4 := loadGen_entries (·.ident) (·.lib) (fun (a : Component) l => { a with lib := l }) pComponent (fun _ => rfl)
+      g.components [] hKn (by simp [keys]) hl.components
+    simp only [List.append_nil] at l3 l4
+    simp only [loadObjectLibs, hget, hers, hA, hGu, hC, hK, hd, loadAnchors_gen, loadGuidelines_gen, loadComponents_gen,
+      l1, l2, l3, l4]
+    rfl
+
 end Glif
